@@ -227,6 +227,12 @@ class chunks(object):
         decChunkMin = int(np.floor((dec - self.decBounds[0]) *
                                    float(self.nDec) /
                                    (self.decBounds[self.nDec]-self.decBounds[0])))
+        if decChunkMin == self.nDec and dec <= self.decBounds[self.nDec]:
+            #
+            # The last slice includes its upper bound (a point at the
+            # pole, Dec = +90 exactly, when the bounds are clamped there).
+            #
+            decChunkMin = self.nDec - 1
         decChunkMax = decChunkMin
         if decChunkMin < 0 or decChunkMin > self.nDec - 1:
             raise PydlutilsException("decChunkMin out of range in chunks.getbounds().")
@@ -292,6 +298,8 @@ class chunks(object):
         decChunk = int(np.floor((dec - self.decBounds[0]) *
                                 float(self.nDec) /
                                 (self.decBounds[self.nDec]-self.decBounds[0])))
+        if decChunk == self.nDec and dec <= self.decBounds[self.nDec]:
+            decChunk = self.nDec - 1
         #
         # Find ra chunk
         #
